@@ -20,6 +20,7 @@ import (
 	"bytes"
 	"errors"
 	"fmt"
+	"math"
 	"regexp"
 	"sort"
 	"strconv"
@@ -970,6 +971,16 @@ func (ctx *Context) evaluate() {
 			}
 			if ok && (diceState.isKeepLH == 2 || diceState.isKeepLH == 4) && diceState.highNum <= 0 {
 				ctx.Error = errors.New("骰子取高个数不为正整数")
+				return
+			}
+
+			// 总和要能放进整数: 面数(或更大的下限)很大时，几个骰子相加就会回绕成负数
+			largest := bInt
+			if diceState.min != nil && *diceState.min > largest {
+				largest = *diceState.min
+			}
+			if diceState.times > 0 && largest > math.MaxInt64/diceState.times {
+				ctx.Error = errors.New("骰点总和超出整数范围")
 				return
 			}
 
